@@ -1183,11 +1183,18 @@ class Structure(UniqueMixin, metaclass=StructMeta):
 
     def __getstate__(self):
         fields_by_name = _get_all_fields_by_name(self.__class__)
-        return {
+        state = {
             name: field.__serialize__(getattr(self, name, None))
             for (name, field) in fields_by_name.items()
             if name in self.__dict__
         }
+        state["_none_fields"] = self.__dict__.get("_none_fields", set())
+        return state
+
+    def __setstate__(self, state):
+        self.__dict__.update(state)
+        self.__dict__.setdefault("_none_fields", set())
+        self.__dict__["_instantiated"] = True
 
     def __str__(self):
         def list_to_str(values):
